@@ -104,13 +104,15 @@ func (n *labelNode[T]) getChild(key string) *labelNode[T] {
 	return n.children[key]
 }
 
+// len returns the number of values stored in n and its descendants.
+// The value of n itself (for the root node: the "." rule) is counted.
 func (n *labelNode[T]) len() int {
 	l := 0
+	if n.hasValue() {
+		l++
+	}
 	for _, node := range n.children {
 		l += node.len()
-		if node.hasValue() {
-			l++
-		}
 	}
 	return l
 }
